@@ -306,6 +306,26 @@ class Builder:
         if k == "frozen":
             self.info["shapes"].add("frozen")
             return co.Frozen(b[1], "y%d" % (b[1] % 3))
+        if k == "stamps":
+            # several instances whose reduction builds fresh datetime / complex objects
+            self.info["shapes"].add("stamps")
+            self.info["setstate"] += 1
+            return [co.Stamp(b[1] + 3 * i) if (b[1] + i) % 3 else co.Phasor(b[1] + i, i) for i in range(2 + b[1] % 5)]
+        if k == "tally":
+            out = co.Tally()
+            self.reg(out, "tally")
+            seen = set()
+            for kb, vb in b[1]:
+                out[self.key(kb, seen)] = self.go(vb)
+            self.close()
+            return out
+        if k == "journal":
+            out = co.Journal()
+            self.reg(out, "journal")
+            for c in b[1]:
+                out.append(self.go(c))
+            self.close()
+            return out
         raise AssertionError(b)
 
 
@@ -623,7 +643,7 @@ def blueprints(max_leaves=14):
                      st.sampled_from(["s1", "", "x y"]).map(lambda s: ("strsub", s)), st.integers(-3, 3).map(lambda i: ("intsub", i)),
                      st.integers(0, 5).map(lambda i: ("frozen", i)), st.integers(0, 5).map(lambda i: ("registered", i)),
                      st.integers(0, 5).map(lambda i: ("regex", i)), st.integers(0, 5).map(lambda i: ("registeredsub", i)),
-                     st.integers(0, 5).map(lambda i: ("complexsub", i)))
+                     st.integers(0, 5).map(lambda i: ("complexsub", i)), st.integers(0, 30).map(lambda i: ("stamps", i)))
     leaf = st.tuples(leaf, st.sampled_from(range(300))).map(lambda t: ("singleton", t[1]) if 150 <= t[1] < 153 else t[0])      # 1 leaf in 100
     ref = st.integers(0, 40).map(lambda n: ("ref", n))
     attr = st.sampled_from(["a", "b", "c", "name", "value"])
@@ -655,6 +675,8 @@ def blueprints(max_leaves=14):
             st.tuples(st.just("listsub"), st.lists(kids, max_size=3), attrs),
             st.lists(st.tuples(hkey, kids), max_size=3).map(lambda l: ("dictsub", l)),
             st.lists(hkey, max_size=3).map(lambda l: ("setsub", l)),
+            st.lists(st.tuples(hkey, kids), max_size=3).map(lambda l: ("tally", l)),
+            st.lists(kids, max_size=3).map(lambda l: ("journal", l)),
             st.tuples(st.just("odsub"), st.lists(st.tuples(hkey, kids), max_size=3), attrs),
             st.tuples(st.just("odslots"), st.lists(st.tuples(hkey, kids), max_size=3), kids),
             st.lists(kids, min_size=1, max_size=3).map(lambda l: ("tuplesub", l)),     # an empty one is never anchored: known finding
